@@ -46,6 +46,23 @@ Theorem C13_events_compose :
   forall t evs1 evs2 s, run t (evs1 ++ evs2) s = (do s1 <- run t evs1 s; run t evs2 s1).
 Proof. exact run_app. Qed.
 
+(* ... but the PARSER of every assemble() call begins by switching to .text (a new mcasm.Assembler is built per call and runs
+   init_sections), so the events of a later chunk begin with `ESection .text`.  "Assembling in chunks gives what assembling the
+   concatenation gives" is therefore FALSE when an earlier chunk ends in another section: the events below are the ones the
+   implementation produces for `nop; .data; .byte 1` followed by `la: .byte 2`, in one piece and in two.  Known finding
+   C13-chunks-restart-in-the-text-section. *)
+Theorem C13_chunks_restart_in_the_text_section_refuted :
+  exists t body1 body2 whole chunked,
+    run t (EChunk :: EPre 5 false :: body1 ++ body2) init = Ok whole /\
+    run t (EChunk :: body1 ++ EChunk :: EPre 5 false :: ESection 0 true :: body2) init = Ok chunked /\
+    body2 = [ELabel 5; EInt 1] /\
+    section_of_label whole 5%nat = Some 1%nat /\ section_of_label chunked 5%nat = Some 0%nat.
+Proof.
+  exists (mk_atarget [] false false false []),
+         [ESection 0 true; EInsn 1 false false false false false []; ESection 1 false; EInt 1], [ELabel 5; EInt 1].
+  eexists. eexists. split; [vm_compute; reflexivity|]. split; [vm_compute; reflexivity|]. repeat split; vm_compute; reflexivity.
+Qed.
+
 From Coq Require Import String.
 (* ===== which labels are temporary (Asm/TempPrefix.v: the ABI's prefix and the back end's private prefix, both compared with the
    implementation for every ABI) ===== *)
